@@ -21,7 +21,7 @@ var c09Kinds = []map[string]string{
 }
 
 var c09Histories = []string{
-	"dial-noaccept", "accept-nodial", "dup-dial2", "dup-dial3", "accept-at-expiry", "dial-at-accept-expiry", "dial-then-late-accept", "two-ids-unmatched", "peer-aborts-stream",
+	"dial-noaccept", "accept-nodial", "dup-dial2", "dup-dial3", "accept-at-expiry", "dial-at-accept-expiry", "dial-then-late-accept", "two-ids-unmatched", "peer-aborts-stream", "reaccept-nodial",
 }
 
 func init() {
@@ -441,6 +441,27 @@ func runC09(r *h.Run) {
 				mustFail(hist+":"+side, o)
 			}
 			wg.Wait()
+		case "reaccept-nodial":
+			// an accept nobody dials, its listener closed again, the same id
+			// accepted once more - still nobody dials (gRPC without multiplexing:
+			// the second connection info meets the first one still parked)
+			if c.Proto != "grpc" || c.Mux {
+				mustFail("dial-noaccept:"+side, dial(side, newID()))
+				break
+			}
+			id := newID()
+			for round := 0; round < 3; round++ {
+				if side == "host" {
+					if stop, err := h.HostAcceptOwn(s.cmd, id); err == nil {
+						time.Sleep(200 * time.Millisecond)
+						r.Do("StopOwn", B, func() (any, error) { stop(); return nil, nil })
+					}
+				} else {
+					s.cmd.Do("acceptown", fmt.Sprint(id))
+					time.Sleep(200 * time.Millisecond)
+					s.cmd.Do("stopown", fmt.Sprint(id))
+				}
+			}
 		case "peer-aborts-stream":
 			// net/rpc: the peer opens a broker stream and closes it after 0-3 of
 			// the 4 ID bytes (it gave up, or died and was replaced, mid-negotiation)
